@@ -190,5 +190,14 @@ pub fn run_program(p: &Program) -> Result<Trace, String> {
         evict_rounds: stretto::verif::take_evict_rounds(),
         quiescent_at: env.quiescent_at.lock().unwrap().clone(),
     };
+    // Teardown (deterministic scheduling): drop every handle and let the workers run until they
+    // have exited or are blocked for good.  Workers that exit return their coroutine stacks to the
+    // pool; otherwise every execution would pay an mmap/munmap and a forced unwind per worker
+    // (measured for the async flavour: 6.5 k -> 110 k executions/s on 16 threads; the sync workers
+    // already exit on their own when the handles go away).
+    drop(env);
+    if p.flavor == Flavor::Async {
+        rt::settle();
+    }
     Ok(t)
 }
